@@ -57,7 +57,7 @@ var c17Valid = map[string]string{
 }
 
 // stdout kinds
-var c17Outs = []string{"valid", "no-name", "no-description", "no-version", "no-url", "no-capabilities", "no-contract", "wrong-name", "bad-contract", "nonjson", "empty", "pad-before", "pad-after", "truncated", "null", "trailing-object", "trailing-text", "trailing-binary", "leading-text", "two-replies", "bom", "extra-field", "array-wrapped", "string-wrapped"}
+var c17Outs = []string{"valid", "no-name", "no-description", "no-version", "no-url", "no-capabilities", "no-contract", "wrong-name", "bad-contract", "nonjson", "empty", "pad-before", "pad-after", "truncated", "null", "trailing-object", "trailing-text", "trailing-binary", "leading-text", "two-replies", "bom", "extra-field", "array-wrapped", "string-wrapped", "pad-after-then-garbage"}
 
 // stderr kinds
 var c17Errs = []string{"empty", "structured", "structured-nomsg", "empty-object", "nonjson", "huge"}
@@ -114,6 +114,13 @@ func (c17) Gen(r *rand.Rand, tier string, idx int) *core.Plan {
 	w["cancelAt"] = int64(core.Pick(r, time.Duration(0), time.Millisecond, 700*time.Millisecond, 30*time.Second))
 	w["sleepBeforeOutput"] = int64(r.IntN(2))
 	w["prelude"] = int64(r.IntN(4) / 3)
+	w["padSpace"] = int64(r.IntN(2))
+	w["sigpipe"] = int64(r.IntN(3) / 2)
+	if big && r.IntN(3) == 0 {
+		// the family around the cap: a reply, padding that crosses the cap, something after it
+		w["out"] = int64(len(c17Outs) - 1)
+		w["padSpace"], w["sigpipe"], w["exit"] = 1, 1, 0
+	}
 	if idx%97 == 0 {
 		// the canonical well-behaved plugin, every command
 		for k := range w {
@@ -127,7 +134,7 @@ func (c17) Gen(r *rand.Rand, tier string, idx int) *core.Plan {
 
 func (c17) Simplify(p *core.Plan) []*core.Plan {
 	var out []*core.Plan
-	def := map[string]int64{"exit": 0, "out": 0, "err": 0, "code": 0, "outSize": 0, "errSize": 0, "chunk": 32 * 1024, "order": 0, "timing": 0, "ctx": 0, "holdExit": 0, "sleepBeforeOutput": 0, "cmd": 0, "prelude": 0}
+	def := map[string]int64{"exit": 0, "out": 0, "err": 0, "code": 0, "outSize": 0, "errSize": 0, "chunk": 32 * 1024, "order": 0, "timing": 0, "ctx": 0, "holdExit": 0, "sleepBeforeOutput": 0, "cmd": 0, "prelude": 0, "padSpace": 0, "sigpipe": 0}
 	for k, v := range def {
 		if p.World[k] != v {
 			q := p.Clone()
@@ -144,6 +151,8 @@ func (c17) Simplify(p *core.Plan) []*core.Plan {
 	}
 	return out
 }
+
+const c17GarbageTail = "\n}} this is not part of any reply {{\n"
 
 func c17Stdout(cmd, kind string, size int64) (data string, fillBefore, fillAfter int64, validShape bool) {
 	valid := c17Valid[cmd]
@@ -191,6 +200,10 @@ func c17Stdout(cmd, kind string, size int64) (data string, fillBefore, fillAfter
 		return valid, size, 0, true // whitespace first: valid only if everything fits under the cap
 	case "pad-after":
 		return valid, 0, size, true
+	case "pad-after-then-garbage":
+		// a valid reply, whitespace, and then something that is not JSON at the very end - possibly beyond the
+		// cap: whatever the host reads of it, this stream is not a reply (c17GarbageTail is written last)
+		return valid, 0, size, false
 	case "truncated":
 		return valid[:len(valid)/2], 0, 0, false
 	case "null":
@@ -231,10 +244,18 @@ func (l c17) Exec(env *core.Env) *core.Result {
 	outData, fillBefore, fillAfter, validShape := c17Stdout(cmdName, outKind, w["outSize"])
 	chunk := int(w["chunk"])
 	var outSteps []simexec.Step
-	if fillBefore > 0 {
-		outSteps = append(outSteps, simexec.Step{Op: "out", Fd: 1, Fill: fillBefore})
+	// padding is whitespace in half of the runs (then reply + padding is one valid JSON text) and "x" otherwise
+	pad := ""
+	if w["padSpace"] == 1 {
+		pad = " "
 	}
-	outSteps = append(outSteps, simexec.Step{Op: "out", Fd: 1, Data: outData, Fill: fillAfter})
+	if fillBefore > 0 {
+		outSteps = append(outSteps, simexec.Step{Op: "out", Fd: 1, Fill: fillBefore, FillWith: pad})
+	}
+	outSteps = append(outSteps, simexec.Step{Op: "out", Fd: 1, Data: outData, Fill: fillAfter, FillWith: pad})
+	if outKind == "pad-after-then-garbage" {
+		outSteps = append(outSteps, simexec.Step{Op: "out", Fd: 1, Data: c17GarbageTail})
+	}
 	var errData string
 	var errFill int64
 	structured := false
@@ -257,6 +278,9 @@ func (l c17) Exec(env *core.Env) *core.Result {
 		errSteps = append(errSteps, simexec.Step{Op: "out", Fd: 2, Data: errData, Fill: errFill})
 	}
 	var steps []simexec.Step
+	if w["sigpipe"] == 1 {
+		steps = append(steps, simexec.Step{Op: "sigpipe-ignore"}) // the plugin goes on (and exits as scripted) when the host stops reading
+	}
 	timing := w["timing"]
 	sleep := simexec.Step{Op: "sleep", Dur: w["sleep"]}
 	if timing == 2 {
